@@ -326,6 +326,8 @@ inductive Op
   | flushRemove                -- open it: all pending removals run
   | drain                      -- cancel the context; the loop's timer fires; StopAll
   | idle                       -- no time passes on the mock clock; the TTL watcher runs
+  | tickHold                   -- like tick, but the loop stops at the gate before a re-push (if it gets there)
+  | tickRelease                -- ... released: re-push, StopProcessing, end of pass
 deriving DecidableEq, Repr
 
 structure Sim where
@@ -333,8 +335,24 @@ structure Sim where
   hold : Bool := false
   gate : List Nat := []        -- ids held after the slot test, oldest first
 
+/-- Loop steps (each followed by what follows a Done) until the loop is about to push a refused
+request again (gate `queue.before-repush`) or its pass is over. -/
+def loopUntilGate (cfg : Cfg) (hold : Bool) : Nat → St → List Act
+  | 0, _ => []
+  | fuel + 1, s =>
+    match s.loop with
+    | .refused _ => []
+    | .idle => []
+    | .exited => []
+    | _ =>
+      let a := Act.loopStep 0 :: settleActs hold s.n
+      a ++ loopUntilGate cfg hold fuel (run cfg s a)
+
+def tickPrefix (x : Sim) : List Act :=
+  [.advance 100, .wScan] ++ repeatActs (.wStep 0 :: settleActs x.hold x.s.n) (2 * x.s.n + 2) ++ [.loopFire]
+
 /-- The schedule of one macro-operation started in `x`. -/
-def opActs (x : Sim) : Op → List Act
+def opActs (cfg : Cfg) (x : Sim) : Op → List Act
   | .arrive p => [.arrive p, .register x.s.n, .push x.s.n]
   | .arriveBegin p => [.arrive p]
   | .arriveEnd i => [.register i, .push i]
@@ -349,9 +367,12 @@ def opActs (x : Sim) : Op → List Act
     [.cancel, .loopFire] ++ repeatActs (.loopStep 0 :: settleActs x.hold x.s.n) (x.s.n + 2) ++
     settleActs x.hold x.s.n
   | .idle => .wScan :: repeatActs (.wStep 0 :: settleActs x.hold x.s.n) (2 * x.s.n + 2)
+  | .tickHold =>
+    tickPrefix x ++ loopUntilGate cfg x.hold (6 * (x.s.heap.length + 1) + 2) (run cfg x.s (tickPrefix x))
+  | .tickRelease => repeatActs (.loopStep 0 :: settleActs x.hold x.s.n) 3
 
 def applyOp (cfg : Cfg) (x : Sim) (op : Op) : Sim :=
-  let s' := run cfg x.s (opActs x op)
+  let s' := run cfg x.s (opActs cfg x op)
   match op with
   | .arriveBegin _ => { x with s := s', gate := if (s'.reqs x.s.n).pc = .checked then x.gate ++ [x.s.n] else x.gate }
   | .arriveEnd _ => { x with s := s', gate := x.gate.drop 1 }
@@ -362,7 +383,7 @@ def applyOp (cfg : Cfg) (x : Sim) (op : Op) : Sim :=
 /-- The flat schedule of a list of macro-operations, and the state it leads to. -/
 def schedule (cfg : Cfg) : Sim → List Op → List Act
   | _, [] => []
-  | x, op :: rest => opActs x op ++ schedule cfg (applyOp cfg x op) rest
+  | x, op :: rest => opActs cfg x op ++ schedule cfg (applyOp cfg x op) rest
 
 def runOps (cfg : Cfg) (x : Sim) (ops : List Op) : Sim := ops.foldl (applyOp cfg) x
 
